@@ -14,7 +14,7 @@ package adjustments
 
 //@ func (*Pll).Do
 //@   requires pllOK(l)
-//@   requires -1e300 <= weight && weight <= 1e300
+// weight is unconstrained (NaN and the infinities included): it is only ever compared.
 //@   requires -1e300 <= l.i && l.i <= 1e300
 //@   entry offset0 := offset
 //@   entry mode0 := l.mode
